@@ -11,6 +11,7 @@ func init() {
 		Assumptions: []string{"the constructors interpret (letters, pairing s, pairing c, gap, caseSensitive) positionally as their parameter names say"},
 		Run: func(c *Ctx) {
 			c.guard("tables/alphabet", func() { ruleAlphabets(c) })
+			c.guard("bijection", func() { ruleBijection(c, "bijection"); c.floor("bijection", 2) })
 			c.guard("casefold", func() { ruleCaseFold(c, "casefold"); c.floor("casefold", 2) })
 		},
 	})
@@ -78,6 +79,7 @@ func init() {
 		Run: func(c *Ctx) {
 			c.guard("convpair", func() { ruleConvPair(c, "convpair"); c.floor("convpair", 12) })
 			c.guard("bufalias", func() { ruleBufAlias(c, "bufalias", "io/featio/bed", "io/featio/gff"); c.floor("bufalias", 2) })
+			c.guard("zerocolour", func() { ruleZeroColour(c, "zerocolour"); c.floor("zerocolour", 1) })
 			c.guard("bytecount", func() { ruleByteCount(c, "bytecount", "io/featio/bed", "io/featio/gff"); c.floor("bytecount", 28) })
 		},
 	})
@@ -114,6 +116,7 @@ func init() {
 		Run: func(c *Ctx) {
 			c.guard("fresh/freshdst", func() { ruleFreshDst(c, "fresh/freshdst", "Join", "Truncate", "Stitch", "Compose"); c.floor("fresh/freshdst", 7) })
 			c.guard("mustpass", func() { ruleScratchReverse(c, "mustpass"); c.floor("mustpass", 1) })
+			c.guard("runningend", func() { ruleRunningEnd(c, "runningend"); c.floor("runningend", 1) })
 		},
 	})
 	register(&propDef{
